@@ -1,7 +1,7 @@
 (** The struct-level round trip (C01, and through it C04, C18): decoding what the encoder
     wrote, through ANY reader format whose raw forest is faithful to the writer calls,
     returns the value that was encoded and consumes exactly its items. *)
-From Coq Require Import ZArith List Bool String Lia.
+From Coq Require Import ZArith List Bool String Lia PeanoNat.
 From KV Require Import Base BaseProofs Wire WireProofs Cursor CursorProofs Schema SchemaSem SchemaSemEq FaithfulProofs Roundtrip RoundtripEq.
 Import ListNotations.
 Open Scope Z_scope.
@@ -98,9 +98,9 @@ Section RT.
   Local Notation dec_ty := (dec_ty S OPS ATTRS OBJS F).
   Local Notation dec_slice := (dec_slice S OPS ATTRS OBJS F).
   Local Notation dec_fields_s := (dec_fields_s S OPS ATTRS OBJS F).
-  Local Notation conf_ty := (conf_ty S).
-  Local Notation conf_list := (conf_list S).
-  Local Notation conf_fields := (conf_fields S).
+  Local Notation conf_ty := (conf_ty S OPS ATTRS OBJS).
+  Local Notation conf_list := (conf_list S OPS ATTRS OBJS).
+  Local Notation conf_fields := (conf_fields S OPS ATTRS OBJS).
 
   (** a scalar is written as one item under its tag, and read back from a faithful element *)
   Lemma scalar_rt k tag v l :
@@ -208,9 +208,11 @@ Section RT.
   Proof. destruct a; reflexivity. Qed.
 
   (** ** the three mutually dependent statements, indexed by the encoder's fuel *)
-  Definition P_ty (fe : nat) : Prop :=
-    forall st t tag v items st' sc,
-      enc_ty fe st t tag v = Ok (items, st') -> conf_ty fe st t tag v = Some sc ->
+  (** what the round trip says of one encoded value: the conformance function tracks the
+      version state as the encoder does, every item carries the tag asked for, a one-item type
+      is one item, a non-zero value of a well-formed type writes something, and the decoder
+      reads the value back from any faithful forest, consuming exactly these items *)
+  Definition RT_concl (fe : nat) (st : vstate) (t : ty) (tag : Z) (v : value) (items : list item) (st' sc : vstate) : Prop :=
       sc = st' /\ tags_all tag items /\ (one_item t = true -> exists i, items = [i]) /\
       (wf_ty t = true -> is_zero v = false -> items <> []) /\
       forall (es rest : list (relem R)) fd, faithful F items es ->
@@ -218,9 +220,14 @@ Section RT.
         (fe + 2 * items_size items + 2 <= fd)%nat ->
         dec_ty fd st t tag (es ++ rest, false) = Ok (v, (rest, false), st').
 
+  Definition P_ty (fe : nat) : Prop :=
+    forall fc st t tag v items st' sc,
+      enc_ty fe st t tag v = Ok (items, st') -> conf_ty fc st t tag v = Some sc ->
+      RT_concl fe st t tag v items st' sc.
+
   Definition P_list (fe : nat) : Prop :=
-    forall st t tag l items st' sc,
-      enc_list fe st t tag l = Ok (items, st') -> conf_list fe st t tag l = Some sc -> one_item t = true ->
+    forall fc st t tag l items st' sc,
+      enc_list fe st t tag l = Ok (items, st') -> conf_list fc st t tag l = Some sc -> one_item t = true ->
       sc = st' /\ tags_all tag items /\ (l <> [] -> items <> []) /\
       forall (es rest : list (relem R)) fd, faithful F items es ->
         c_tag (rest, false) <> tag ->
@@ -228,12 +235,21 @@ Section RT.
         dec_slice fd st t tag (es ++ rest, false) = Ok (l, (rest, false), st').
 
   Definition P_fields (fe : nat) : Prop :=
-    forall st fl vl items st' sc,
-      enc_fields fe st fl vl = Ok (items, st') -> wf_fields fl = true -> conf_fields fe st fl vl = Some sc ->
+    forall fc st fl vl items st' sc,
+      enc_fields fe st fl vl = Ok (items, st') -> wf_fields fl = true -> conf_fields fc st fl vl = Some sc ->
       sc = st' /\ (hd_tag items = 0 \/ exists g, In g fl /\ hd_tag items = f_tag g) /\
       forall (es : list (relem R)) fd, faithful F items es ->
         (fe + 2 * items_size items + 2 <= fd)%nat ->
         dec_fields_s fd st fl (es, false) = Ok (vl, ([], false), st').
+
+  (** the hand-written codecs: the same conclusion for a structure whose decoder is hand-written *)
+  Definition P_custom (fe : nat) : Prop :=
+    forall fc st d tag fs items st' sc,
+      find_tdef S (t_name d) = Some d -> t_custom_dec d = true ->
+      String.eqb (t_name d) "ttlv.Value" = false -> String.eqb (t_name d) "ttlv.Struct" = false ->
+      enc_ty fe st (TNamed (t_name d)) tag (VStruct (t_name d) fs) = Ok (items, st') ->
+      conf_custom_of S OPS ATTRS OBJS (conf_ty fc) st d tag fs = Some sc ->
+      RT_concl fe st (TNamed (t_name d)) tag (VStruct (t_name d) fs) items st' sc.
 
   Lemma one_item_no_lookahead t : one_item t = true -> lookahead t = false.
   Proof. destruct t; cbn; intros H; try discriminate; reflexivity. Qed.
@@ -242,7 +258,7 @@ Section RT.
 
   Lemma step_list f : P_ty f -> P_list f -> P_list (Datatypes.S f).
   Proof.
-    intros IHt IHl st t tag l items st' sc He Hc Hone.
+    intros IHt IHl fc st t tag l items st' sc He Hc Hone. destruct fc as [|fc]; [discriminate|].
     rewrite enc_list_eq in He. rewrite conf_list_eq in Hc.
     destruct l as [|x r].
     - injection He as <- <-. injection Hc as <-. split; [reflexivity|]. split; [constructor|]. split; [intros H; contradiction|].
@@ -252,9 +268,9 @@ Section RT.
     - destruct (enc_ty f st t tag x) as [[a sa]| | |] eqn:Ea; cbn [bind fst snd] in He; try discriminate.
       destruct (enc_list f sa t tag r) as [[b sb]| | |] eqn:Eb; cbn [bind fst snd] in He; try discriminate.
       injection He as <- <-.
-      destruct (conf_ty f st t tag x) as [s1|] eqn:Ec; [|discriminate].
-      destruct (IHt _ _ _ _ _ _ _ Ea Ec) as (-> & Hta & Hone_a & _ & Hdec_a).
-      destruct (IHl _ _ _ _ _ _ _ Eb Hc Hone) as (-> & Htb & _ & Hdec_b).
+      destruct (conf_ty fc st t tag x) as [s1|] eqn:Ec; [|discriminate].
+      destruct (IHt _ _ _ _ _ _ _ _ Ea Ec) as (-> & Hta & Hone_a & _ & Hdec_a).
+      destruct (IHl _ _ _ _ _ _ _ _ Eb Hc Hone) as (-> & Htb & _ & Hdec_b).
       destruct (Hone_a Hone) as [i ->].
       split; [reflexivity|]. split; [apply Forall_app; split; assumption|]. split; [intros _; discriminate|].
       intros es rest fd Hf Hnext Hfd.
@@ -273,9 +289,15 @@ Section RT.
   Qed.
 
 
-  Lemma step_ty f : P_ty f -> P_list f -> P_fields f -> P_ty (Datatypes.S f).
+  Lemma find_tdef_name (n : string) d : find_tdef S n = Some d -> t_name d = n.
   Proof.
-    intros IHt IHl IHf st t tag v items st' sc He Hc.
+    induction S as [|d0 r IH]; cbn [find_tdef]; [discriminate|].
+    destruct (String.eqb (t_name d0) n) eqn:E; [intros H; injection H as <-; apply String.eqb_eq, E | exact IH].
+  Qed.
+
+  Lemma step_ty f : P_ty f -> P_list f -> P_fields f -> P_custom (Datatypes.S f) -> P_ty (Datatypes.S f).
+  Proof.
+    intros IHt IHl IHf IHc fc st t tag v items st' sc He Hc. destruct fc as [|fc]; [discriminate|]. pose proof He as He0.
     rewrite enc_ty_eq in He. rewrite conf_ty_eq in Hc.
     destruct t as [k|t'|t'|n|n].
     - (* scalar *)
@@ -293,7 +315,7 @@ Section RT.
         destruct fd as [|fd]; [lia|]. rewrite dec_ty_eq.
         destruct (Z.eqb_spec (c_tag (rest, false)) tag) as [E|_]; [exfalso; apply (Hnext eq_refl E) | reflexivity].
       + destruct (one_item t') eqn:Hone; [|discriminate].
-        destruct (IHt _ _ _ _ _ _ _ He Hc) as (-> & Hta & Hone_a & _ & Hdec).
+        destruct (IHt _ _ _ _ _ _ _ _ He Hc) as (-> & Hta & Hone_a & _ & Hdec).
         destruct (Hone_a Hone) as [i ->].
         split; [reflexivity|]. split; [exact Hta|]. split; [discriminate|]. split; [intros; discriminate|].
         intros es rest fd Hf _ Hfd. apply faithful_one_inv in Hf. destruct Hf as (e & -> & He1).
@@ -305,7 +327,7 @@ Section RT.
     - (* slice *)
       destruct v as [| | | | | |l| | |]; try discriminate.
       destruct (one_item t') eqn:Hone; [|discriminate].
-      destruct (IHl _ _ _ _ _ _ _ He Hc Hone) as (-> & Hta & Hne & Hdec).
+      destruct (IHl _ _ _ _ _ _ _ _ He Hc Hone) as (-> & Hta & Hne & Hdec).
       split; [reflexivity|]. split; [exact Hta|]. split; [discriminate|].
       split; [intros _ Hz; apply Hne; destruct l; [discriminate Hz | discriminate]|].
       intros es rest fd Hf Hnext Hfd. destruct fd as [|fd]; [lia|]. rewrite dec_ty_eq.
@@ -339,13 +361,18 @@ Section RT.
         rewrite (trees_of_some l is Etr). reflexivity. }
       destruct (find_tdef S n) as [d|] eqn:Ed; [|discriminate].
       destruct v as [| | | | | | |n' fs| |]; try discriminate.
-      destruct (String.eqb n n' && negb (t_custom_enc d) && negb (t_custom_dec d) && wf_fields (t_fields d)) eqn:Hcond; [|discriminate].
+      destruct (String.eqb n n' && negb (t_custom_enc d) && negb (t_custom_dec d) && wf_fields (t_fields d)) eqn:Hcond.
+      2:{ (* a structure with a hand-written decoder *)
+        destruct (String.eqb n n' && t_custom_dec d) eqn:Hc2; [|discriminate].
+        apply andb_true_iff in Hc2. destruct Hc2 as [Hn Hcd]. apply String.eqb_eq in Hn. subst n'.
+        pose proof (find_tdef_name n d Ed) as Hnm. subst n.
+        exact (IHc _ _ _ _ _ _ _ _ Ed Hcd EV ES He0 Hc). }
       apply andb_true_iff in Hcond. destruct Hcond as [Hcond Hwf]. apply andb_true_iff in Hcond. destruct Hcond as [Hcond Hcd].
       apply andb_true_iff in Hcond. destruct Hcond as [Hn Hce]. apply String.eqb_eq in Hn. subst n'.
       apply negb_true_iff in Hce, Hcd. rewrite Hce in He.
       destruct (enc_fields f st (t_fields d) fs) as [[kids s2]| | |] eqn:Ef; cbn [bind fst snd] in He; try discriminate.
       injection He as <- <-.
-      destruct (IHf _ _ _ _ _ _ Ef Hwf Hc) as (-> & _ & Hdec).
+      destruct (IHf _ _ _ _ _ _ _ Ef Hwf Hc) as (-> & _ & Hdec).
       split; [reflexivity|]. split; [constructor; [reflexivity | constructor]|]. split; [eauto|]. split; [intros; discriminate|].
       intros es rest fd Hf _ Hfd. apply faithful_one_inv in Hf. destruct Hf as (e & -> & He1).
       inversion He1 as [tag0 kids0 raw eks Hk| | | | | | | | | |]; subst.
@@ -387,14 +414,15 @@ Section RT.
     apply negb_true_iff in HV, HS.
     destruct f as [|f]; [discriminate|]. rewrite conf_ty_eq, HV, HS, Ed in He.
     destruct x as [| | | | | | |n' fs| |]; try discriminate.
-    destruct (String.eqb n n' && negb (t_custom_enc d) && negb (t_custom_dec d) && wf_fields (t_fields d)) eqn:Hcond; [|discriminate].
+    destruct (String.eqb n n' && negb (t_custom_enc d) && negb (t_custom_dec d) && wf_fields (t_fields d)) eqn:Hcond.
+    2:{ apply negb_true_iff in Hcd. rewrite Hcd, andb_false_r in He. discriminate. }
     destruct (conf_plain_fields _ Hpl _ _ _ _ He) as [-> Hall].
     split; [reflexivity|]. intros st2. rewrite conf_ty_eq, HV, HS, Ed, Hcond. apply Hall.
   Qed.
 
   Lemma step_fields f : P_ty f -> P_fields f -> P_fields (Datatypes.S f).
   Proof.
-    intros IHt IHf st fl vl items st' sc He Hwf Hc.
+    intros IHt IHf fc st fl vl items st' sc He Hwf Hc. destruct fc as [|fc]; [discriminate|].
     rewrite enc_fields_eq in He. rewrite conf_fields_eq in Hc.
     destruct fl as [|fd fl'].
     { destruct vl; [|discriminate]. injection He as <- <-. injection Hc as <-.
@@ -413,9 +441,9 @@ Section RT.
     assert (Hst1 : f_setver fd = false -> st1 = st) by (intros E; unfold st1; rewrite E; reflexivity).
     (* what follows an optional field has another tag *)
     assert (Hlater : opt_field fd = true -> forall b sb, enc_fields f st1 fl' vl' = Ok (b, sb) ->
-              forall sc', conf_fields f st1 fl' vl' = Some sc' -> hd_tag b <> f_tag fd).
+              forall sc', conf_fields fc st1 fl' vl' = Some sc' -> hd_tag b <> f_tag fd).
     { intros Hopt b sb Eb sc' Ec'. rewrite Hopt in Hdist.
-      destruct (IHf _ _ _ _ _ _ Eb Hwfr Ec') as (_ & [H0|(g & Hg & Hgt)] & _).
+      destruct (IHf _ _ _ _ _ _ _ Eb Hwfr Ec') as (_ & [H0|(g & Hg & Hgt)] & _).
       - rewrite H0. apply Z.eqb_neq in Htag0. congruence.
       - rewrite Hgt. apply (forallb_neq_tag fl' (f_tag fd) Hdist g Hg). }
     destruct (negb (version_in st1 (f_range fd))) eqn:Hver.
@@ -429,7 +457,7 @@ Section RT.
       { destruct (f_setver fd) eqn:E; [|reflexivity]. destruct (Hsv' eq_refl) as (_ & Hrn & _). congruence. }
       rewrite (Hst1 Hns) in *.
       assert (Hopt : opt_field fd = true) by (unfold opt_field; rewrite Hr; apply orb_true_iff; left; apply orb_true_r).
-      destruct (IHf _ _ _ _ _ _ Eb Hwfr Hc) as (-> & Hhd & Hdec).
+      destruct (IHf _ _ _ _ _ _ _ Eb Hwfr Hc) as (-> & Hhd & Hdec).
       split; [reflexivity|]. split; [destruct Hhd as [H0|(g & Hg & Hgt)]; [left; exact H0 | right; exists g; split; [right; exact Hg | exact Hgt]]|].
       intros es fd0 Hf Hfd. destruct fd0 as [|fd0]; [lia|]. rewrite dec_fields_s_eq, Htag0, Hver.
       rewrite (faithful_hd_tag F _ _ Hf).
@@ -445,7 +473,7 @@ Section RT.
         { destruct (f_setver fd) eqn:E; [|reflexivity]. destruct (Hsv' eq_refl) as (Hof & _). congruence. }
         rewrite (Hst1 Hns) in *.
         assert (Hopt : opt_field fd = true) by (unfold opt_field; rewrite Ho; reflexivity).
-        destruct (IHf _ _ _ _ _ _ Eb Hwfr Hc) as (-> & Hhd & Hdec).
+        destruct (IHf _ _ _ _ _ _ _ Eb Hwfr Hc) as (-> & Hhd & Hdec).
         split; [reflexivity|]. split; [destruct Hhd as [H0|(g & Hg & Hgt)]; [left; exact H0 | right; exists g; split; [right; exact Hg | exact Hgt]]|].
         intros es fd0 Hf Hfd. destruct fd0 as [|fd0]; [lia|]. rewrite dec_fields_s_eq, Htag0, Hver.
         rewrite (faithful_hd_tag F _ _ Hf).
@@ -454,9 +482,9 @@ Section RT.
       + (* the field is written *)
         destruct (enc_ty f st1 (f_ty fd) (f_tag fd) x) as [[a sa]| | |] eqn:Ea; cbn [bind fst snd] in He; try discriminate.
         destruct (enc_fields f sa fl' vl') as [[b sb]| | |] eqn:Eb; cbn [bind fst snd] in He; try discriminate. injection He as <- <-.
-        destruct (conf_ty f st1 (f_ty fd) (f_tag fd) x) as [sca|] eqn:Eca; [|discriminate].
-        destruct (IHt _ _ _ _ _ _ _ Ea Eca) as (-> & Hta & _ & Hne & Hdec_a).
-        destruct (IHf _ _ _ _ _ _ Eb Hwfr Hc) as (-> & Hhd & Hdec_b).
+        destruct (conf_ty fc st1 (f_ty fd) (f_tag fd) x) as [sca|] eqn:Eca; [|discriminate].
+        destruct (IHt _ _ _ _ _ _ _ _ Ea Eca) as (-> & Hta & _ & Hne & Hdec_a).
+        destruct (IHf _ _ _ _ _ _ _ Eb Hwfr Hc) as (-> & Hhd & Hdec_b).
         split; [reflexivity|].
         split.
         { rewrite hd_tag_app. destruct a as [|i a'].
@@ -483,7 +511,7 @@ Section RT.
           assert (Hopt : opt_field fd = true) by (unfold opt_field; rewrite Hl; apply orb_true_r).
           intros E. destruct (f_setver fd) eqn:Esv.
           - destruct (Hsv' eq_refl) as (_ & _ & Hpl). destruct (f_ty fd); discriminate.
-          - destruct (IHf _ _ _ _ _ _ Eb Hwfr Hc) as (_ & [H0|(g & Hg & Hgt)] & _).
+          - destruct (IHf _ _ _ _ _ _ _ Eb Hwfr Hc) as (_ & [H0|(g & Hg & Hgt)] & _).
             + apply Z.eqb_neq in Htag0. congruence.
             + rewrite Hopt in Hdist. apply (forallb_neq_tag fl' (f_tag fd) Hdist g Hg). congruence. }
         destruct (f_setver fd) eqn:Esv.
@@ -491,7 +519,7 @@ Section RT.
           destruct (Hsv' eq_refl) as (_ & _ & Hpl).
           destruct (plain_enc_ty _ Hpl _ _ _ _ _ _ Ea) as [-> Hany].
           destruct (plain_conf_ty _ Hpl _ _ _ _ _ Eca) as [_ Hcany].
-          destruct (IHt _ _ _ _ _ _ _ (Hany st) (Hcany st)) as (_ & _ & _ & _ & Hdec_st).
+          destruct (IHt _ _ _ _ _ _ _ _ (Hany st) (Hcany st)) as (_ & _ & _ & _ & Hdec_st).
           rewrite (Hdec_st ea eb fd0 Hfa Hnext) by lia. cbn [bind fst snd].
           fold st1. rewrite (Hdec_b eb fd0 Hfb) by lia. reflexivity.
         * rewrite (Hst1 eq_refl) in *.
@@ -499,12 +527,23 @@ Section RT.
           rewrite (Hdec_b eb fd0 Hfb) by lia. reflexivity.
   Qed.
 
-  (** the struct-level round trip, for every encoder fuel *)
-  Theorem rt_all fe : P_ty fe /\ P_list fe /\ P_fields fe.
+  (** everything below a fuel level (the hand-written codecs reach several levels down) *)
+  Definition Q (f : nat) : Prop := forall g, (g <= f)%nat -> P_ty g /\ P_list g /\ P_fields g.
+
+  (** the struct-level round trip, for every encoder fuel, given the hand-written codecs
+      (discharged in RoundtripCustoms.v) *)
+  Theorem rt_all_with : (forall f, Q f -> P_custom (Datatypes.S f)) ->
+    forall fe, P_ty fe /\ P_list fe /\ P_fields fe.
   Proof.
-    induction fe as [|f (IHt & IHl & IHf)].
-    - split; [intros st t tag v items st' sc H; discriminate H|].
-      split; [intros st t tag l items st' sc H; discriminate H | intros st fl vl items st' sc H; discriminate H].
-    - split; [apply step_ty; assumption | split; [apply step_list; assumption | apply step_fields; assumption]].
+    intros Hcust.
+    assert (HQ : forall fe, Q fe).
+    { induction fe as [|f IH]; intros g Hg.
+      - assert (g = O) by lia. subst g.
+        split; [intros fc st t tag v items st' sc H; discriminate H|].
+        split; [intros fc st t tag l items st' sc H; discriminate H | intros fc st fl vl items st' sc H; discriminate H].
+      - destruct (Nat.eq_dec g (Datatypes.S f)) as [->|Hne]; [|apply IH; lia].
+        destruct (IH f (Nat.le_refl f)) as (IHt & IHl & IHf).
+        split; [apply step_ty; try assumption; apply Hcust, IH | split; [apply step_list; assumption | apply step_fields; assumption]]. }
+    intros fe. exact (HQ fe fe (Nat.le_refl fe)).
   Qed.
 End RT.
